@@ -12,7 +12,7 @@ SEQ = {
             [('direct', 5, F), ('single1', 4, F), ('single2', 4, F), ('single3', 4, R), ('errops', 4, F), ('multi', 4, R), ('depth2', 4, F)], '6 C01'),
     'C02': (['REF', 'TAP'], [('creators', 2, F), ('single1', 4, F), ('single2', 4, F), ('single3', 3, F), ('c14', 2, F)],
             [('creators', 3, F), ('single1', 5, F), ('single2', 5, F), ('single3', 4, R), ('depth2', 4, F)], '6 C02'),
-    'C06': (['C06'], [('single1', 3, F), ('single2', 3, F), ('single3', 3, F), ('errops', 3, F), ('multi', 3, R), ('endless', 2, F), ('flatdeep', 7, F), ('subjects', 3, R)],
+    'C06': (['C06'], [('single1', 3, F), ('single2', 3, F), ('single3', 3, F), ('errops', 3, F), ('multi', 4, R), ('endless', 2, F), ('flatdeep', 7, F), ('subjects', 3, R)],
             [('single1', 4, F), ('single2', 4, F), ('single3', 4, R), ('errops', 4, F), ('multi', 4, R), ('endless', 3, F), ('depth2', 4, F), ('flatdeep', 8, R)], '6 C06'),
     'C03': (['REF'], [('multi', 4, R), ('c14', 2, F)], [('multi', 5, R), ('multi3', 4, F)], '6 C03'),
     'C04': (['REF'], [('errops', 4, F)], [('errops', 5, F), ('errdeep', 4, F)], '6 C04'),
@@ -77,6 +77,7 @@ CONC = {
     'C16': (['C16'], [timedops(3)], [timedops(4)]),
     'C18': (['C18'], [tovec(2, False), tovec(2, True)], [tovec(4, False), tovec(4, True)]),
     'C13': (['C13'], [], []),
+    'C04': (['C04'], [], []),
     'C12': (['C12'], [subjconc('plain', 3, False), subjconc('plain', 3, True), subjconc('replay', 3, False, 'NoDup (KF-C12-replay-latesub-duplicate)'), subjconc('behavior', 3, False, 'NoDup (KF-C12-behavior-latesub-duplicate)')],
             [subjconc('plain', 4, False), subjconc('plain', 4, True), subjconc('replay', 4, False, 'NoDup (KF-C12-replay-latesub-duplicate)'), subjconc('behavior', 4, True, 'NoDup (KF-C12-behavior-latesub-duplicate)')]),
     'C05': (['C05'], [sinkconc(2, 2, ['UnsubStops'])], [sinkconc(2, 3, ['UnsubStops']), sinkconc(3, 1, ['UnsubStops'])]),
